@@ -916,6 +916,15 @@ func (x *Exec) binop(st *State, fr *Frame, in *ssa.BinOp) *Val {
 	if divisor {
 		x.fault(st, fr, in, "div", not(eq(b.S, m.lit(big.NewInt(0), ii))))
 	}
+	if needRange && m.Wrap {
+		switch in.Op {
+		case token.ADD, token.SUB:
+			res = m.wrapAddSub(st.define(in.Name(), res), ii)
+		default:
+			res = m.convert(st.define(in.Name(), res), intInfo{128, true}, ii)
+		}
+		needRange = false
+	}
 	res = st.define(in.Name(), res)
 	if needRange && !m.BV {
 		ord := x.siteOrdinal(fr.fn, in, "overflow")
